@@ -1091,3 +1091,6 @@ REQUIRED_PROBES = {
                        'package-without-final-newline',
                        'same-file-under-two-names'],
 }
+
+
+RULE_MORE = {'C14': ' Added in the build rounds: unusual package names (dots, spaces, quotes, backslashes) in three quoting styles, require() in 24 syntactic positions and inside game-loop functions (to packages nothing else reaches, possibly missing), functions whose names merely start with a game-loop name, CRLF packages with multi-line strings (long-string contents compared exactly), packages in a directory of their own name (entry with two ?), a vendor package behind a path component that is a file, global flags, and earlier builds in the same process (unrelated project, the same files with older contents, a failing build whose --lua-path names same-named decoys).'}
